@@ -153,6 +153,12 @@ class Report:
                     from symx.core import Verdict
 
                     v = Verdict("unknown", None, 0.0, f"not linearisable: {e}")
+                if v.status == "unsat" and v.reason.startswith("goal is syntactically zero"):
+                    # pure ring identity (no hypothesis needed): let the solver confirm it on the original terms
+                    v0 = refute(goal, [], timeout_ms, tactic)
+                    v0.secs += v.secs
+                    v0.reason = "pure ring identity (no hypotheses)" + (f"; nlsat: {v0.reason}" if v0.reason else "")
+                    v = v0
                 if v.status != "unsat":
                     v1 = refute(goal, list(constraints) + extra, timeout_ms, tactic)
                     v1.secs += v.secs
